@@ -61,6 +61,8 @@ FIXED = [  # (id, property, commit, key regex, what failed)
  ("F58","C15","1408aa6",r"repro:DynamicBayesianNetwork\.add_cpds:duplicate-cpd","DBN.add_cpds appended a duplicate CPD instead of replacing"),
  ("F59","C15","7153c3b",r"repro:DynamicBayesianNetwork\.copy:raised:ValueError","DBN.get_cpds/copy raised for a variable present in one slice only"),
  ("F60","C17","598406b",r".*initialize_initial_state:(root-card-not-2.*|copied:parent-order.*|copied:state-names)","initialize_initial_state hard-coded cardinality 2, misordered parents, dropped state names"),
+ ("F62","C13","30969a5",r"query_evidence:query:evidence-outside-adjustment-set","CausalInference.query dropped evidence outside the adjustment set from the inner query"),
+ ("F63","C13","e557fb6",r"minimal_adjustment:get_minimal_adjustment_set:descendant-of-treatment","get_minimal_adjustment_set could return a descendant of the treatment"),
  ("F61","C13","12577b6",r"query_multi_do:query:multi-do:parent-child","CausalInference.query adjusted for a variable that is itself intervened on"),
 ]
 KNOWN = [  # (id, property, key regex, what fails) - still present in /repo; see DESIGN.md §12 for why each is not repaired
@@ -72,9 +74,7 @@ KNOWN = [  # (id, property, key regex, what fails) - still present in /repo; see
  ("K10","C13",r"query_multi_do:query:multi-do:default-adjustment","CausalInference.query with several do variables: the default adjustment set (parents) can contain descendants of another do variable - wrong answer; no small repair"),
  ("K11","C13",r"minimal_adjustment:get_minimal_adjustment_set:latent:none-but-exists","get_minimal_adjustment_set returns None although a valid set exists when latents are present (minimal_dseparator gives up)"),
  ("K12","C13",r"simulate_do_unreachable_state:simulate:unreachable-do-state:no-termination","simulate(do=...) to a state no parent configuration produces loops forever"),
- ("K13","C13",r"minimal_adjustment:get_minimal_adjustment_set:descendant-of-treatment","get_minimal_adjustment_set can return a descendant of the treatment (U->X, U->M, X->M->Y gives {M}), hash-seed dependent"),
- ("K14","C13",r"query_evidence:query:evidence-outside-adjustment-set","CausalInference.query drops evidence on variables outside the adjustment set from the inner query"),
- ("K15","C13",r"adjustment_multi:is_valid_adjustment_set:pairs-zipped","is_valid_adjustment_set pairs treatments and outcomes with zip() instead of all pairs"),
+ ("K15","C13",r"adjustment_multi:is_valid_adjustment_set:pairs-zipped","is_valid_adjustment_set pairs treatments and outcomes with zip() instead of all pairs; the stable test TestAdjustmentSet::test_is_valid_adjustment_set asserts True for a set that is invalid under the all-pairs reading, so no correct fix passes the unedited suite"),
  ("K16","C14",r"mn_to_factor_graph:to_factor_graph:(same-scope-factors|target-fails-check_model)","MarkovNetwork.to_factor_graph names factor nodes by scope (two factors on one scope collide) and the result fails FactorGraph.check_model; needs factor objects as nodes - API-visible change"),
  ("K17","C15",r"repro:BayesianNetwork\.remove_nodes?(_from)?:dangling-cpd-of-non-child","remove_node leaves the removed variable in the scope of a CPD whose evidence lists it although it is not a graph child (model was already inconsistent)"),
  ("K18","C15",r"copy_separation:FactorGraph\.copy:factor_nodes-aliased","FactorGraph.copy: the copy's factor nodes are the original's factor objects"),
@@ -86,7 +86,7 @@ KNOWN = [  # (id, property, key regex, what fails) - still present in /repo; see
  ("K24","C17",r"inference_classes:query:interface-evidence:.*","smoothing with evidence on an interface node is wrong (backward pass drops it)"),
  ("K25","C17",r"(inference_classes|inference_named):result-state-names","DBN inference result factors carry no state names"),
  ("K26","C17",r"inference_multi:(query|forward_inference):multi-slice:values","variables of several slices in one request give wrong marginals; the stable test test_backward_inf_multiple_variables_with_evidence pins a wrong value, so no correct fix passes the unedited suite"),
- ("K27","C20",r"canonical_marginalize_g:uninverted-Kjj","CanonicalDistribution.marginalize: constant g uses h_j' K_jj h_j instead of h_j' K_jj^-1 h_j"),
+ ("K27","C20",r"canonical_marginalize_g:uninverted-Kjj","CanonicalDistribution.marginalize: constant g uses h_j' K_jj h_j instead of h_j' K_jj^-1 h_j; stable tests (test_Canonical_Factor test_marginalize / test_copy) pin the wrong value -0.5787 (correct -0.6742)"),
  ("K01","C18",r"closure:unsound-contraction|closure_bounds:.*|E1:Independencies\.closure\.<locals>\.sg3\[any\]/post\.contraction-sound#\d+",
   "Independencies.closure: contraction rule sg3 accepts Y,Z strictly inside the conditioning set without Y u Z == it (from X_|_W|{A,B,C}, X_|_A|B derives X_|_{W,A}|B); the stable test test_closure pins the resulting count (78), so no correct fix passes the unedited suite"),
  ("K02","C18",r"closure:incomplete:contraction-empty-context","Independencies.closure misses contraction with empty context (X_|_Y, X_|_W|Y => X_|_{Y,W}); same line as K01, pinned by test_closure"),
